@@ -95,8 +95,9 @@ func newTables() *tables {
 	}
 	// --- the 16 listed kinds
 	add(&kind{cmd: wire.CmdVersion, listed: true, fresh: func() wire.Message { return &wire.MsgVersion{} },
-		// user agent is read with ReadVarString whose declared guard is the global message limit
-		gamma: func(t *tables) uint64 { return t.maxMsg }, countLimit: wire.MaxUserAgentLen, countOffset: 80})
+		// the version message declares a payload limit of a few hundred bytes (MaxUserAgentLen for the
+		// user agent): announcing a longer user agent must not make the decoder allocate for it
+		gamma: func(t *tables) uint64 { return wire.MaxUserAgentLen }, countLimit: wire.MaxUserAgentLen, countOffset: 80})
 	add(&kind{cmd: wire.CmdVerAck, listed: true, fresh: func() wire.Message { return &wire.MsgVerAck{} }})
 	add(&kind{cmd: wire.CmdGetAddr, listed: true, fresh: func() wire.Message { return &wire.MsgGetAddr{} }})
 	add(&kind{cmd: wire.CmdAddr, listed: true, fresh: func() wire.Message { return &wire.MsgAddr{} },
